@@ -1408,7 +1408,7 @@ def announced_count_of_what_follows(ctx):
 @rule('C13', 'length-counts-variable-prefixes', configs=('default', 'p256'))
 def length_counts_variable_prefixes(ctx):
     """'the serialization has exactly the announced length': a LEB128 prefix is one byte only below 128. When `write` emits a
-    prefix whose value is not a constant (write_vec of a field, write_leb128_u64 of a computed number), `length` sizes it with
+    prefix whose value is the length of a collection (write_vec of a field, write_leb128_u64 of some `len()`), `length` sizes it with
     `to_leb128_len` (directly or through a helper) instead of assuming one byte."""
     F = ctx.F
     n = 0
@@ -1425,7 +1425,8 @@ def length_counts_variable_prefixes(ctx):
                     var.append(c)
                 elif c.is_(r'Serializer::write_leb128_u64$') and len(c.args) > 1 and is_place(c.args[1]):
                     sl = backward_slice(fb, [c.args[1]], follow_mutarg=False)
-                    if sl.calls:
+                    # a prefix that carries a LENGTH is unbounded; a tag computed from a flag (`u64::from(ek.is_some())`) is not
+                    if sl.has_call(r'::len$'):
                         var.append(c)
         if not var:
             continue
